@@ -34,6 +34,9 @@ FLOORS = {"quick": {"events": 60000, "new_acks": 20000, "dup_acks": 10000, "fast
                        "short_dup_runs": 16000, "new_segments_checked": 400000, "guard_tight": 60000,
                        "cubic_cases": 4000, "reno_cases": 4000, "multi_segment_acks": 60000, "rtt_above_rto": 10000}}
 KEYS = tuple(FLOORS["quick"].keys()) + ("candidate_forks", "simultaneous_timeouts", "app_paced_cases", "windows_beyond_65535", "sync_acks_inside_fast_retransmit", "finite_finish_time_cases", "timeouts_after_finish_time")
+# floors for the situations added with the later rounds of seeded changes (evidence that they were really exercised)
+FLOORS["quick"].update({'sync_acks_inside_fast_retransmit': 500, 'timeouts_after_finish_time': 400})
+FLOORS["thorough"].update({'sync_acks_inside_fast_retransmit': 2500, 'timeouts_after_finish_time': 2000})
 MSS = 512
 
 
